@@ -138,6 +138,38 @@ Holds(e, name) ==
     [] name = "C01_PeriodicDiffusion"  -> C01_ClosedPeriodic(g, bc, V, MatOf(o.Mdiff))
     [] name = "C01_PeriodicCentral"    -> C01_ClosedPeriodic(g, bc, V, MatOf(o.Mconv))
     [] name = "C01_PeriodicUpwind"     -> C01_ClosedPeriodic(g, bc, V, MatOf(o.Mup))
+    [] name = "C04_Solves" -> C04_Solves(g, FieldOf(g, cf.xstar), FieldOf(g, o.r_solve))
+    [] name = "C04_SameObject" -> o.flags.same_object
+    [] name = "C04_SameAsMatrixPDE" ->
+         C04_SameInterior(g, FieldOf(g, o.r_solve), IntFieldOf(g, o.r_matrix))
+    [] name = "C04_ExternalSolver" ->
+         /\ MatOf(o.Mext) = MatOf(o.Mhand)
+         /\ FieldOf(g, o.Rext) = FieldOf(g, o.Rhand)
+         /\ C04_SameInterior(g, IntFieldOf(g, o.r_ext), FieldOf(g, cf.xstar2))
+    [] name = "C04_Variants" ->
+         \A v \in DOMAIN o.r_variants : C04_Solves(g, FieldOf(g, cf.xstar), FieldOf(g, o.r_variants[v]))
+    [] name = "C04_Linear" ->
+         C04_Linear(g, FieldOf(g, o.r_solve), FieldOf(g, o.r_solve2), FieldOf(g, o.r_sum))
+    [] name = "C04_Assembly" ->
+         C04_Assembly(g, MatOf(o.Mhand), FieldOf(g, o.Rhand), MatOf(o.Mbc), FieldOf(g, o.Rbc),
+                      MatOf(o.Aspatial), IntFieldOf(g, cf.alpha), cf.dt, IntFieldOf(g, cf.old),
+                      IntFieldOf(g, o.gamma))
+    [] name = "C12_Residual" ->
+         C12_Residual(g, IntFieldOf(g, cf.alpha), cf.dt, IntFieldOf(g, cf.old), MatOf(o.Aspatial),
+                      IntFieldOf(g, o.gamma), FieldOf(g, o.r_solve))
+    [] name = "C12_FixedPoint" -> C04_Solves(g, FieldOf(g, cf.xstar), FieldOf(g, o.r_fixed))
+    [] name = "C12_ExplicitStep" ->
+         C12_ExplicitStep(g, o.dt_explicit, FieldOf(g, o.in_explicit), FieldOf(g, o.rhs_explicit),
+                          FieldOf(g, o.r_explicit))
+    [] name = "C12_ExplicitBCs" ->
+         C03_Robin(g, bc, FieldOf(g, o.r_explicit)) /\ C03_Periodic(g, bc, FieldOf(g, o.r_explicit))
+    [] name = "C12_InputUntouched" ->
+         o.flags.explicit_input_untouched /\ o.flags.explicit_new_object
+    [] name = "C12_ExplicitUsable" ->
+         /\ o.flags.explicit_then_implicit = "ok"
+         /\ C04_Solves(g, FieldOf(g, cf.xstar), FieldOf(g, o.r_after_explicit))
+    [] name = "C03_SolvedRobin" ->
+         C03_Robin(g, bc, FieldOf(g, o.r_solve)) /\ C03_Periodic(g, bc, FieldOf(g, o.r_solve))
     [] name = "C04_DiffInterior" -> InteriorRowsOnly(g, MatOf(o.Mdiff))
     [] name = "C04_ConvInterior" -> InteriorRowsOnly(g, MatOf(o.Mconv))
     [] name = "C04_UpInterior"   -> InteriorRowsOnly(g, MatOf(o.Mup))
